@@ -41,6 +41,7 @@ fn run_case(line: &str) -> String {
                         left -= 1;
                         if let Some(p) = cb_handle.as_ref() {
                             p.ping();
+                            l2.lock().unwrap().push("P0".into());
                         }
                     }
                 })
@@ -62,6 +63,7 @@ fn run_case(line: &str) -> String {
     for (i, prog) in progs.iter().enumerate() {
         let mine = ping.clone();
         let prog = prog.clone();
+        let log = log.clone();
         sched.spawn(i + 1, move || {
             let mut handles: Vec<Ping> = vec![mine];
             for op in prog.chars() {
@@ -69,6 +71,7 @@ fn run_case(line: &str) -> String {
                     'p' => {
                         if let Some(h) = handles.first() {
                             h.ping();
+                            log.lock().unwrap().push(format!("P{}", i + 1));
                         }
                     }
                     'c' => {
